@@ -1,4 +1,826 @@
+(* C03 -- proofs about the request-table model (lib/Requests.v) instantiated with the programs translated
+   from call.py / broker.py into gen/RequestsGen.v.  The closed-form lemmas (complete_step_closed, fail_step_closed,
+   finish_step_closed) are where a change of the translated source shows up: they are proved by running the
+   interpreter on the generated programs. *)
 From Coq Require Import ZArith List Bool Lia.
 Import ListNotations.
 Require Import Verif.gen.RequestsGen Verif.lib.Requests.
-Lemma placeholder : True. Proof. exact I. Qed.
+Local Open Scope Z_scope.
+
+Lemma run_is_exec_ps h o ps : forall x,
+  (fix run (ps : list pstmt) (x : st * bool) {struct ps} : st * bool :=
+     match ps with [] => x | p' :: ps' => run ps' (exec_p p' h o x) end) ps x = exec_ps ps h o x.
+Proof. induction ps as [|p ps IH]; intros x; cbn [exec_ps]; [reflexivity|]. apply IH. Qed.
+
+Lemma exec_p_raised p h o s : exec_p p h o (s, true) = (s, true).
+Proof. destruct p; reflexivity. Qed.
+
+Lemma exec_ps_raised ps h o s : exec_ps ps h o (s, true) = (s, true).
+Proof. induction ps as [|p ps IH]; cbn [exec_ps]; [reflexivity|]. rewrite exec_p_raised. exact IH. Qed.
+
+Lemma exec_p_unfold p h o s :
+  exec_p p h o (s, false) =
+  match get s h with
+  | None => (s, false)
+  | Some c =>
+    match p with
+    | PIfBroker body => if c_tracked c then exec_ps body h o (s, false) else (s, false)
+    | PIfActive th el => if c_active c then exec_ps th h o (s, false) else exec_ps el h o (s, false)
+    | PRemove => do_remove s (c_rid c)
+    | PSetActive b => (set_calls s (upd h (set_active b) (calls s)), false)
+    | PSetFailure => (s, false)
+    | PCallback => (set_calls s (upd h (add_fire OResult) (calls s)), false)
+    | PErrback => (set_calls s (upd h (add_fire o) (calls s)), false)
+    | PLog => (s, false)
+    end
+  end.
+Proof.
+  destruct p; cbn [exec_p snd fst]; destruct (get s h) as [c|]; try reflexivity.
+  - destruct (c_tracked c); [apply run_is_exec_ps | reflexivity].
+  - destruct (c_active c); apply run_is_exec_ps.
+Qed.
+
+(* ---------- lists *)
+Lemma nth_upd_same (l : list call) : forall h f c, nth_error l h = Some c -> nth_error (upd h f l) h = Some (f c).
+Proof. induction l as [|a l IH]; intros [|h] f c H; cbn in *; try discriminate; [congruence | eauto]. Qed.
+
+Lemma nth_upd_other (l : list call) : forall h h' f, h <> h' -> nth_error (upd h f l) h' = nth_error l h'.
+Proof.
+  induction l as [|a l IH]; intros [|h] [|h'] f H; cbn; try reflexivity; try congruence.
+  apply IH. congruence.
+Qed.
+
+Lemma nth_upd_none (l : list call) : forall h f, nth_error l h = None -> upd h f l = l.
+Proof. induction l as [|a l IH]; intros [|h] f H; cbn in *; try reflexivity; try discriminate. f_equal. eauto. Qed.
+
+Lemma length_upd (l : list call) : forall h f, List.length (upd h f l) = List.length l.
+Proof. induction l as [|a l IH]; intros [|h] f; cbn; auto. Qed.
+
+Lemma nth_upd (l : list call) h h' f :
+  nth_error (upd h f l) h' = if Nat.eqb h h' then option_map f (nth_error l h') else nth_error l h'.
+Proof.
+  destruct (Nat.eqb_spec h h') as [->|N].
+  - destruct (nth_error l h') eqn:E; cbn.
+    + eapply nth_upd_same; eauto.
+    + rewrite nth_upd_none; auto.
+  - apply nth_upd_other; auto.
+Qed.
+
+Lemma upd_upd (l : list call) : forall h f g, upd h g (upd h f l) = upd h (fun c => g (f c)) l.
+Proof. induction l as [|a l IH]; intros [|h] f g; cbn; try reflexivity. f_equal. apply IH. Qed.
+
+(* ---------- table *)
+Lemma tbl_has_true rid t : tbl_has rid t = true <-> In rid (map fst t).
+Proof.
+  unfold tbl_has. rewrite existsb_exists. split.
+  - intros [e [H1 H2]]. apply Z.eqb_eq in H2. subst. apply in_map. exact H1.
+  - intros H. apply in_map_iff in H as [e [H1 H2]]. exists e. split; auto. apply Z.eqb_eq. auto.
+Qed.
+
+Lemma tbl_del_in rid t e : In e (tbl_del rid t) <-> In e t /\ fst e <> rid.
+Proof.
+  unfold tbl_del. rewrite filter_In. split; intros [H1 H2]; split; auto.
+  - apply negb_true_iff in H2. apply Z.eqb_neq in H2. exact H2.
+  - apply negb_true_iff. apply Z.eqb_neq. exact H2.
+Qed.
+
+Lemma tbl_find_some rid t h : tbl_find rid t = Some h -> In (rid, h) t.
+Proof.
+  induction t as [|[r k] t IH]; cbn; [discriminate|].
+  destruct (Z.eqb_spec r rid) as [->|N]; intros H.
+  - inversion H; subst. left. reflexivity.
+  - right. auto.
+Qed.
+
+Lemma tbl_find_none rid t : tbl_find rid t = None -> ~ In rid (map fst t).
+Proof.
+  induction t as [|[r k] t IH]; cbn; [tauto|].
+  destruct (Z.eqb_spec r rid) as [->|N]; intros H; [discriminate|].
+  intros [E|E]; [congruence | apply IH; auto].
+Qed.
+
+Lemma NoDup_map_filter {A B} (f : A -> B) (p : A -> bool) l : NoDup (map f l) -> NoDup (map f (filter p l)).
+Proof.
+  induction l as [|a l IH]; cbn; intros H; [constructor|].
+  inversion H; subst. destruct (p a); cbn; auto.
+  constructor; auto. intros X. apply H2. apply in_map_iff in X as [y [E Y]]. apply filter_In in Y as [Y _].
+  rewrite <- E. apply in_map. exact Y.
+Qed.
+
+(* ---------- closed forms of the translated methods *)
+Definition deactivate_and_fire (o : outcome) (c : call) : call := add_fire o (set_active false c).
+Definition fire (s : st) (h : nat) (o : outcome) : st := set_calls s (upd h (deactivate_and_fire o) (calls s)).
+
+Definition complete_closed (s : st) (h : nat) : st :=
+  match get s h with
+  | None => s
+  | Some c =>
+    if c_tracked c then
+      if tbl_has (c_rid c) (table s) then
+        let s1 := set_table s (tbl_del (c_rid c) (table s)) in
+        if c_active c then fire s1 h OResult else s1
+      else bump_raised s
+    else if c_active c then fire s h OResult else s
+  end.
+
+Definition fail_closed (s : st) (h : nat) (o : outcome) : st :=
+  match get s h with
+  | None => s
+  | Some c =>
+    if c_active c then
+      if c_tracked c then
+        if tbl_has (c_rid c) (table s) then fire (set_table s (tbl_del (c_rid c) (table s))) h o
+        else bump_raised s
+      else fire s h o
+    else s
+  end.
+
+Lemma get_set_table s t h : get (set_table s t) h = get s h. Proof. reflexivity. Qed.
+Lemma get_set_calls_upd s h f c : get s h = Some c -> get (set_calls s (upd h f (calls s))) h = Some (f c).
+Proof. unfold get. cbn [calls set_calls]. apply nth_upd_same. Qed.
+
+Ltac step_p := rewrite exec_p_unfold.
+
+Lemma complete_step_closed s h : complete_step s h = complete_closed s h.
+Proof.
+  unfold complete_step, complete_closed, PendingRequest_complete. cbn [exec_ps].
+  step_p. destruct (get s h) as [c|] eqn:G.
+  2:{ step_p. rewrite G. reflexivity. }
+  destruct (c_tracked c) eqn:T.
+  - cbn [exec_ps]. step_p. rewrite G. unfold do_remove, removeRequest_kind.
+    destruct (tbl_has (c_rid c) (table s)) eqn:H.
+    + step_p. rewrite get_set_table, G.
+      destruct (c_active c) eqn:Ac; cbn [exec_ps].
+      * step_p. rewrite get_set_table, G. step_p.
+        erewrite get_set_calls_upd by (rewrite get_set_table; exact G).
+        cbn [fst]. unfold fire. cbn [calls set_calls set_table]. rewrite upd_upd. reflexivity.
+      * step_p. rewrite get_set_table, G. reflexivity.
+    + rewrite exec_p_raised. reflexivity.
+  - step_p. rewrite G. destruct (c_active c) eqn:Ac; cbn [exec_ps].
+    + step_p. rewrite G. step_p. erewrite get_set_calls_upd by exact G.
+      cbn [fst]. unfold fire. cbn [calls set_calls]. rewrite upd_upd. reflexivity.
+    + step_p. rewrite G. reflexivity.
+Qed.
+
+Lemma fail_step_closed s h o : fail_step s h o = fail_closed s h o.
+Proof.
+  unfold fail_step, fail_closed, PendingRequest_fail. cbn [exec_ps].
+  step_p. destruct (get s h) as [c|] eqn:G; [|reflexivity].
+  destruct (c_active c) eqn:Ac; cbn [exec_ps].
+  2:{ step_p. rewrite G. reflexivity. }
+  step_p. rewrite G. destruct (c_tracked c) eqn:T.
+  - cbn [exec_ps]. step_p. rewrite G. unfold do_remove, removeRequest_kind.
+    destruct (tbl_has (c_rid c) (table s)) eqn:H.
+    + step_p. rewrite get_set_table, G. step_p.
+      erewrite get_set_calls_upd by (rewrite get_set_table; exact G).
+      step_p. erewrite get_set_calls_upd by (rewrite get_set_table; exact G).
+      step_p. erewrite get_set_calls_upd by (rewrite get_set_table; exact G).
+      cbn [fst]. unfold fire. cbn [calls set_calls set_table]. rewrite upd_upd. reflexivity.
+    + rewrite !exec_p_raised. reflexivity.
+  - step_p. rewrite G. step_p. erewrite get_set_calls_upd by exact G.
+    step_p. erewrite get_set_calls_upd by exact G.
+    step_p. erewrite get_set_calls_upd by exact G.
+    cbn [fst]. unfold fire. cbn [calls set_calls]. rewrite upd_upd. reflexivity.
+Qed.
+
+Definition finish_closed (s : st) (o : outcome) : st :=
+  if disconnected s then s
+  else set_evq (set_disconnected s) (evq s ++ map (fun e => (snd e, o)) (table s)).
+
+Lemma finish_step_closed s o : finish_step s o = finish_closed s o.
+Proof.
+  unfold finish_step, finish_closed, Broker_finish. cbn [exec_f].
+  destruct (disconnected s); reflexivity.
+Qed.
+
+(* ---------- invariant *)
+Definition call_ok (c : call) : Prop :=
+  (List.length (c_fires c) <= 1)%nat /\
+  (c_active c = true -> c_fires c = []) /\
+  (c_active c = false -> c_twoway c = true -> List.length (c_fires c) = 1%nat) /\
+  (c_tracked c = true -> c_twoway c = true) /\
+  (c_twoway c = true -> c_active c = true -> c_tracked c = true).
+
+Record Inv0 (s : st) : Prop := {
+  I_calls : forall h c, get s h = Some c -> call_ok c;
+  I_tbl : forall rid h, In (rid, h) (table s) ->
+          exists c, get s h = Some c /\ c_rid c = rid /\ c_tracked c = true /\ c_active c = true;
+  I_pend : forall h c, get s h = Some c -> c_tracked c = true -> c_active c = true -> In (c_rid c, h) (table s);
+  I_fresh : forall h c, get s h = Some c -> c_tracked c = true -> first_reqid <= c_rid c < nextid s;
+  I_uniq : forall h1 h2 c1 c2, get s h1 = Some c1 -> get s h2 = Some c2 ->
+           c_tracked c1 = true -> c_tracked c2 = true -> c_rid c1 = c_rid c2 -> h1 = h2;
+  I_nodup : NoDup (map fst (table s));
+  I_next : first_reqid <= nextid s
+}.
+
+Definition Disc (s : st) : Prop :=
+  disconnected s = true -> forall rid h, In (rid, h) (table s) -> exists o, In (h, o) (evq s).
+
+Definition Inv (s : st) : Prop := Inv0 s /\ Disc s.
+
+Lemma get_lt s h c : get s h = Some c -> (h < List.length (calls s))%nat.
+Proof. unfold get. intros H. apply nth_error_Some. congruence. Qed.
+
+Lemma get_push_old s c h c' : get s h = Some c' -> get (push s c) h = Some c'.
+Proof.
+  intros H. pose proof (get_lt _ _ _ H) as L. unfold get, push in *. cbn [calls set_calls].
+  rewrite nth_error_app1; auto.
+Qed.
+
+Lemma get_push_new s c : get (push s c) (List.length (calls s)) = Some c.
+Proof. unfold get, push. cbn [calls set_calls]. rewrite nth_error_app2 by lia. rewrite Nat.sub_diag. reflexivity. Qed.
+
+Lemma get_push s c h c' : get (push s c) h = Some c' ->
+  get s h = Some c' \/ (h = List.length (calls s) /\ c' = c).
+Proof.
+  unfold get, push. cbn [calls set_calls]. intros H.
+  destruct (Nat.lt_ge_cases h (List.length (calls s))) as [L|L].
+  - rewrite nth_error_app1 in H by auto. left. exact H.
+  - rewrite nth_error_app2 in H by auto. right.
+    destruct (h - List.length (calls s))%nat as [|k] eqn:E.
+    + cbn in H. inversion H. split; [lia | reflexivity].
+    + cbn in H. destruct k; discriminate.
+Qed.
+
+Lemma get_fire s h o h' :
+  get (fire s h o) h' = if Nat.eqb h h' then option_map (deactivate_and_fire o) (get s h') else get s h'.
+Proof. unfold get, fire. cbn [calls set_calls]. apply nth_upd. Qed.
+
+Lemma inv0_init : Inv0 init.
+Proof.
+  split; unfold init, get; cbn; intros; try (destruct h; discriminate); try contradiction.
+  - destruct h1; discriminate.
+  - constructor.
+  - lia.
+Qed.
+
+Lemma call_ok_fired o c : c_active c = true -> call_ok c -> call_ok (deactivate_and_fire o c).
+Proof.
+  intros A [H1 [H2 [H3 [H4 H5]]]]. unfold call_ok, deactivate_and_fire, add_fire, set_active. cbn.
+  rewrite (H2 A). cbn. repeat split; auto; intros; discriminate.
+Qed.
+
+Lemma inv0_fire s h c o t' :
+  Inv0 s -> get s h = Some c -> c_active c = true ->
+  (t' = table s /\ c_tracked c = false) \/ (t' = tbl_del (c_rid c) (table s) /\ c_tracked c = true) ->
+  Inv0 (fire (set_table s t') h o).
+Proof.
+  intros I G A Ht.
+  assert (Hsub : forall e, In e t' -> In e (table s)).
+  { destruct Ht as [[-> _]|[-> _]]; auto. intros e He. apply tbl_del_in in He. tauto. }
+  assert (Hnoth : forall rid, ~ In (rid, h) t').
+  { intros rid He. destruct Ht as [[-> T]|[-> T]].
+    - destruct (I_tbl _ I _ _ He) as [c' [G' [_ [T' _]]]]. congruence.
+    - apply tbl_del_in in He as [He Hr]. destruct (I_tbl _ I _ _ He) as [c' [G' [R' _]]]. cbn in Hr. congruence. }
+  assert (Hget : forall h' c', get (fire (set_table s t') h o) h' = Some c' ->
+            (h' = h /\ c' = deactivate_and_fire o c) \/ (h' <> h /\ get s h' = Some c')).
+  { intros h' c'. rewrite get_fire, get_set_table. destruct (Nat.eqb_spec h h') as [<-|N].
+    - rewrite G. cbn. intros X. inversion X. auto.
+    - intros X. right. split; congruence. }
+  split.
+  - intros h' c' H. apply Hget in H as [[-> ->]|[_ H]]; [apply call_ok_fired; eauto using I_calls | eauto using I_calls].
+  - intros rid h' He. cbn [table fire set_calls set_table] in He.
+    assert (h' <> h) by (intros ->; eapply Hnoth; eauto).
+    destruct (I_tbl _ I _ _ (Hsub _ He)) as [c' [G' R]]. exists c'. split; auto.
+    rewrite get_fire, get_set_table. destruct (Nat.eqb_spec h h'); congruence.
+  - intros h' c' H T' A'. cbn [table fire set_calls set_table].
+    apply Hget in H as [[-> ->]|[N H]]; [cbn in A'; discriminate|].
+    pose proof (I_pend _ I _ _ H T' A') as P.
+    destruct Ht as [[-> _]|[-> T]]; auto.
+    apply tbl_del_in. split; auto. cbn. intros E. apply N. eapply (I_uniq _ I); eauto.
+  - intros h' c' H T'. cbn [nextid fire set_calls set_table].
+    apply Hget in H as [[-> ->]|[N H]].
+    + cbn in *. eapply (I_fresh _ I); eauto.
+    + eapply (I_fresh _ I); eauto.
+  - intros h1 h2 c1 c2 H1 H2 T1 T2 E.
+    apply Hget in H1 as [[-> ->]|[N1 H1]]; apply Hget in H2 as [[-> ->]|[N2 H2]]; auto; cbn in *.
+    + eapply (I_uniq _ I); eauto.
+    + eapply (I_uniq _ I); eauto.
+    + eapply (I_uniq _ I); eauto.
+  - cbn [table fire set_calls set_table]. destruct Ht as [[-> _]|[-> _]]; [apply (I_nodup _ I)|].
+    apply NoDup_map_filter. apply (I_nodup _ I).
+  - cbn. apply (I_next _ I).
+Qed.
+
+Lemma inv0_bump s : Inv0 s -> Inv0 (bump_raised s).
+Proof. intros I. destruct I. split; auto. Qed.
+
+Lemma inv0_set_evq s q : Inv0 s -> Inv0 (set_evq s q).
+Proof. intros I. destruct I. split; auto. Qed.
+
+Lemma inv0_set_disc s : Inv0 s -> Inv0 (set_disconnected s).
+Proof. intros I. destruct I. split; auto. Qed.
+
+Lemma inv0_complete s h : Inv0 s -> Inv0 (complete_closed s h).
+Proof.
+  intros I. unfold complete_closed. destruct (get s h) as [c|] eqn:G; auto.
+  destruct (c_tracked c) eqn:T.
+  - destruct (tbl_has (c_rid c) (table s)) eqn:H; [|apply inv0_bump; auto].
+    destruct (c_active c) eqn:A.
+    + eapply inv0_fire; eauto.
+    + exfalso. apply tbl_has_true in H. apply in_map_iff in H as [[r k] [E H]]. cbn in E. subst r.
+      destruct (I_tbl _ I _ _ H) as [c' [G' [R' [T' A']]]].
+      assert (k = h) by (eapply (I_uniq _ I); eauto). subst. congruence.
+  - destruct (c_active c) eqn:A; auto.
+    replace s with (set_table s (table s)) at 1 by (destruct s; reflexivity).
+    eapply inv0_fire; eauto.
+Qed.
+
+Lemma inv0_fail s h o : Inv0 s -> Inv0 (fail_closed s h o).
+Proof.
+  intros I. unfold fail_closed. destruct (get s h) as [c|] eqn:G; auto.
+  destruct (c_active c) eqn:A; auto.
+  destruct (c_tracked c) eqn:T.
+  - destruct (tbl_has (c_rid c) (table s)) eqn:H; [|apply inv0_bump; auto].
+    eapply inv0_fire; eauto.
+  - replace s with (set_table s (table s)) at 1 by (destruct s; reflexivity).
+    eapply inv0_fire; eauto.
+Qed.
+
+Lemma NoDup_snoc {A} (l : list A) a : NoDup l -> ~ In a l -> NoDup (l ++ [a]).
+Proof.
+  induction l as [|b l IH]; cbn; intros H N.
+  - constructor; [tauto | constructor].
+  - inversion H; subst. constructor.
+    + rewrite in_app_iff. cbn. intros [X|[X|[]]]; [tauto | subst; tauto].
+    + apply IH; tauto.
+Qed.
+
+Lemma inv0_take_id s : Inv0 s -> Inv0 (take_id s).
+Proof.
+  intros I. split; try apply I.
+  - intros h c G T. cbn [nextid take_id]. pose proof (I_fresh _ I h c G T). lia.
+  - cbn. pose proof (I_next _ I). lia.
+Qed.
+
+Lemma inv0_push_untracked s c : Inv0 s -> c_tracked c = false -> call_ok c -> Inv0 (push s c).
+Proof.
+  intros I T OK. split.
+  - intros h c' G. apply get_push in G as [G|[_ ->]]; eauto using I_calls.
+  - intros rid h He. cbn in He. destruct (I_tbl _ I _ _ He) as [c' [G R]]. exists c'. split; auto.
+    apply get_push_old. exact G.
+  - intros h c' G T' A. cbn. apply get_push in G as [G|[_ ->]]; [eapply (I_pend _ I); eauto | congruence].
+  - intros h c' G T'. cbn. apply get_push in G as [G|[_ ->]]; [eapply (I_fresh _ I); eauto | congruence].
+  - intros h1 h2 c1 c2 G1 G2 T1 T2 E.
+    apply get_push in G1 as [G1|[_ ->]]; [|congruence].
+    apply get_push in G2 as [G2|[_ ->]]; [|congruence].
+    eapply (I_uniq _ I); eauto.
+  - cbn. apply (I_nodup _ I).
+  - cbn. apply (I_next _ I).
+Qed.
+
+Definition new_tracked (rid : Z) : call := mkCall rid true true PendingRequest_active_default [].
+
+Lemma inv0_push_tracked s :
+  Inv0 s ->
+  let s1 := push (take_id s) (new_tracked (nextid s)) in
+  Inv0 (set_table s1 (table s1 ++ [(nextid s, List.length (calls s))])).
+Proof.
+  intros I s1.
+  assert (OKn : call_ok (new_tracked (nextid s))).
+  { unfold call_ok, new_tracked, PendingRequest_active_default. cbn. repeat split; auto; intros; discriminate. }
+  assert (Hget : forall h c, get (set_table s1 (table s1 ++ [(nextid s, List.length (calls s))])) h = Some c ->
+            get s h = Some c \/ (h = List.length (calls s) /\ c = new_tracked (nextid s))).
+  { intros h c G. rewrite get_set_table in G. apply get_push in G. exact G. }
+  assert (Hold : forall h c, get s h = Some c -> get (set_table s1 (table s1 ++ [(nextid s, List.length (calls s))])) h = Some c).
+  { intros h c G. rewrite get_set_table. apply get_push_old. exact G. }
+  split.
+  - intros h c G. apply Hget in G as [G|[_ ->]]; eauto using I_calls.
+  - intros rid h He. cbn [table set_table] in He. apply in_app_iff in He as [He|[He|[]]].
+    + cbn in He. destruct (I_tbl _ I _ _ He) as [c [G R]]. exists c. split; auto.
+    + inversion He; subst. exists (new_tracked (nextid s)). split.
+      * rewrite get_set_table. apply (get_push_new (take_id s)).
+      * cbn. auto.
+  - intros h c G T A. cbn [table set_table]. apply in_app_iff. apply Hget in G as [G|[-> ->]].
+    + left. cbn. eapply (I_pend _ I); eauto.
+    + right. left. reflexivity.
+  - intros h c G T. cbn [nextid set_table]. apply Hget in G as [G|[-> ->]].
+    + pose proof (I_fresh _ I _ _ G T). cbn. lia.
+    + cbn. pose proof (I_next _ I). lia.
+  - intros h1 h2 c1 c2 G1 G2 T1 T2 E.
+    apply Hget in G1 as [G1|[-> ->]]; apply Hget in G2 as [G2|[-> ->]]; auto.
+    + eapply (I_uniq _ I); eauto.
+    + pose proof (I_fresh _ I _ _ G1 T1). cbn in E. lia.
+    + pose proof (I_fresh _ I _ _ G2 T2). cbn in E. lia.
+  - cbn [table set_table]. rewrite map_app. cbn.
+    apply NoDup_snoc; [apply (I_nodup _ I)|].
+    intros X. apply in_map_iff in X as [[r k] [E X]]. cbn in E, X. subst r.
+    destruct (I_tbl _ I _ _ X) as [c [G [R [T _]]]]. pose proof (I_fresh _ I _ _ G T). lia.
+  - cbn. pose proof (I_next _ I). lia.
+Qed.
+
+Lemma inv0_call s k : Inv0 s -> Inv0 (call_step s k).
+Proof.
+  intros I. unfold call_step, oneway_silent_when_disconnected, newRequestID_refuses_when_disconnected.
+  rewrite !andb_true_r.
+  assert (D : call_ok (mkCall 0 true false false [ODeadRef])) by (unfold call_ok; cbn; repeat split; auto; intros; discriminate).
+  destruct k.
+  - destruct (disconnected s); [apply inv0_push_untracked; auto|].
+    apply (inv0_push_tracked s I).
+  - destruct (disconnected s); apply inv0_push_untracked; auto; unfold call_ok, PendingRequest_active_default; cbn;
+      repeat split; auto; intros; discriminate.
+  - destruct (disconnected s); [apply inv0_push_untracked; auto|].
+    apply inv0_push_untracked; [apply inv0_take_id; auto | reflexivity |].
+    unfold call_ok; cbn; repeat split; auto; intros; discriminate.
+Qed.
+
+Lemma inv0_finish s o : Inv0 s -> Inv0 (finish_closed s o).
+Proof.
+  intros I. unfold finish_closed. destruct (disconnected s); auto.
+  apply inv0_set_evq. apply inv0_set_disc. exact I.
+Qed.
+
+Lemma inv0_step s x : Inv0 s -> Inv0 (step s x).
+Proof.
+  intros I. destruct x; cbn [step].
+  - apply inv0_call; auto.
+  - destruct (tbl_find rid (table s)); auto. rewrite complete_step_closed. apply inv0_complete; auto.
+  - destruct (tbl_find rid (table s)); auto. rewrite fail_step_closed. apply inv0_fail; auto.
+  - destruct (tbl_find rid (table s)); auto. rewrite fail_step_closed. apply inv0_fail; auto.
+  - rewrite complete_step_closed. apply inv0_complete; auto.
+  - rewrite fail_step_closed. apply inv0_fail; auto.
+  - rewrite finish_step_closed. apply inv0_finish; auto.
+  - destruct (evq s) as [|[h o] q]; auto. rewrite fail_step_closed. apply inv0_fail. apply inv0_set_evq. auto.
+Qed.
+
+(* ---------- frame facts *)
+Lemma frame_complete s h :
+  disconnected (complete_closed s h) = disconnected s /\ evq (complete_closed s h) = evq s /\
+  nextid (complete_closed s h) = nextid s /\
+  List.length (calls (complete_closed s h)) = List.length (calls s) /\
+  (forall e, In e (table (complete_closed s h)) -> In e (table s)).
+Proof.
+  unfold complete_closed. destruct (get s h) as [c|]; [|tauto].
+  destruct (c_tracked c); [destruct (tbl_has (c_rid c) (table s))|]; try destruct (c_active c);
+    cbn; rewrite ?length_upd; repeat split; auto; intros e He; apply tbl_del_in in He; tauto.
+Qed.
+
+Lemma frame_fail s h o :
+  disconnected (fail_closed s h o) = disconnected s /\ evq (fail_closed s h o) = evq s /\
+  nextid (fail_closed s h o) = nextid s /\
+  List.length (calls (fail_closed s h o)) = List.length (calls s) /\
+  (forall e, In e (table (fail_closed s h o)) -> In e (table s)).
+Proof.
+  unfold fail_closed. destruct (get s h) as [c|]; [|tauto].
+  destruct (c_active c); [|tauto].
+  destruct (c_tracked c); [destruct (tbl_has (c_rid c) (table s))|];
+    cbn; rewrite ?length_upd; repeat split; auto; intros e He; apply tbl_del_in in He; tauto.
+Qed.
+
+Lemma frame_call s k :
+  disconnected (call_step s k) = disconnected s /\ evq (call_step s k) = evq s /\
+  (disconnected s = true -> table (call_step s k) = table s).
+Proof.
+  unfold call_step, oneway_silent_when_disconnected, newRequestID_refuses_when_disconnected.
+  rewrite !andb_true_r. destruct k; destruct (disconnected s) eqn:E; cbn; rewrite ?E; repeat split; auto; intros H; discriminate H.
+Qed.
+
+Lemma disc_shrink s s' :
+  Disc s -> disconnected s' = disconnected s -> evq s' = evq s -> (forall e, In e (table s') -> In e (table s)) -> Disc s'.
+Proof. intros D E1 E2 Sub Hd rid h He. rewrite E2. apply (D (eq_trans (eq_sym E1) Hd) rid h). auto. Qed.
+
+Lemma disc_step s x : Inv0 s -> Disc s -> Disc (step s x).
+Proof.
+  intros I D. destruct x; cbn [step].
+  - destruct (frame_call s k) as [E1 [E2 E3]]. intros Hd. rewrite E1 in Hd. rewrite E2, (E3 Hd). apply D. exact Hd.
+  - destruct (tbl_find rid (table s)); auto. rewrite complete_step_closed.
+    destruct (frame_complete s n) as [E1 [E2 [_ [_ Sub]]]]. eapply disc_shrink; eauto.
+  - destruct (tbl_find rid (table s)); auto. rewrite fail_step_closed.
+    destruct (frame_fail s n ORemoteError) as [E1 [E2 [_ [_ Sub]]]]. eapply disc_shrink; eauto.
+  - destruct (tbl_find rid (table s)); auto. rewrite fail_step_closed.
+    destruct (frame_fail s n OViolation) as [E1 [E2 [_ [_ Sub]]]]. eapply disc_shrink; eauto.
+  - rewrite complete_step_closed. destruct (frame_complete s h) as [E1 [E2 [_ [_ Sub]]]]. eapply disc_shrink; eauto.
+  - rewrite fail_step_closed. destruct (frame_fail s h o) as [E1 [E2 [_ [_ Sub]]]]. eapply disc_shrink; eauto.
+  - rewrite finish_step_closed. unfold finish_closed. destruct (disconnected s) eqn:Hd; auto.
+    intros _ rid h He. cbn in *. exists o. apply in_app_iff. right.
+    apply in_map_iff. exists (rid, h). auto.
+  - destruct (evq s) as [|[h o] q] eqn:Q; auto. rewrite fail_step_closed.
+    intros Hd rid h' He.
+    destruct (frame_fail (set_evq s q) h o) as [E1 [E2 [_ [_ Sub]]]].
+    rewrite E1 in Hd. rewrite E2. cbn [disconnected evq set_evq table] in *.
+    pose proof (Sub _ He) as He0.
+    destruct (D Hd rid h' He0) as [o' Ho']. rewrite Q in Ho'. destruct Ho' as [X|X]; [|eauto].
+    inversion X; subst h' o'. exfalso.
+    destruct (I_tbl _ I _ _ He0) as [c [G [R [T A]]]].
+    pose proof (I_pend _ I _ _ G T A) as P.
+    unfold fail_closed in He. rewrite get_set_table in He || idtac.
+    change (get (set_evq s q) h) with (get s h) in He. rewrite G, A, T in He.
+    cbn [table set_evq] in He.
+    assert (Hh : tbl_has (c_rid c) (table s) = true) by (apply tbl_has_true; apply in_map_iff; exists (c_rid c, h); auto).
+    rewrite Hh in He. cbn in He. apply tbl_del_in in He as [_ N]. cbn in N. congruence.
+Qed.
+
+Lemma inv_init : Inv init.
+Proof. split; [apply inv0_init | intros H; discriminate]. Qed.
+
+Lemma inv_step s x : Inv s -> Inv (step s x).
+Proof. intros [I D]. split; [apply inv0_step | apply disc_step]; auto. Qed.
+
+Lemma inv_run_from ops : forall s, Inv s -> Inv (run_from s ops).
+Proof. induction ops as [|x ops IH]; intros s I; cbn; auto. apply IH. apply inv_step. exact I. Qed.
+
+Lemma inv_run ops : Inv (run ops).
+Proof. apply inv_run_from. apply inv_init. Qed.
+
+(* ---------- the property theorems *)
+
+(* 1. nothing fires twice *)
+Theorem at_most_once : forall ops h c, get (run ops) h = Some c -> (List.length (c_fires c) <= 1)%nat.
+Proof. intros ops h c G. destruct (inv_run ops) as [I _]. apply (I_calls _ I _ _ G). Qed.
+
+(* 2. the table holds exactly the requests that were registered and have not fired *)
+Theorem table_iff_pending : forall ops rid,
+  In rid (map fst (table (run ops))) <->
+  exists h c, get (run ops) h = Some c /\ c_tracked c = true /\ c_rid c = rid /\ c_fires c = [].
+Proof.
+  intros ops rid. destruct (inv_run ops) as [I _]. split.
+  - intros H. apply in_map_iff in H as [[r h] [E H]]. cbn in E. subst r.
+    destruct (I_tbl _ I _ _ H) as [c [G [R [T A]]]]. exists h, c. repeat split; auto.
+    destruct (I_calls _ I _ _ G) as [_ [F _]]. auto.
+  - intros [h [c [G [T [R F]]]]].
+    destruct (I_calls _ I _ _ G) as [_ [_ [F1 [F2 _]]]].
+    destruct (c_active c) eqn:A.
+    + subst rid. apply in_map_iff. exists (c_rid c, h). split; auto. apply (I_pend _ I _ _ G T A).
+    + specialize (F1 eq_refl (F2 T)). rewrite F in F1. discriminate.
+Qed.
+
+Theorem table_keys_unique : forall ops, NoDup (map fst (table (run ops))).
+Proof. intros ops. destruct (inv_run ops) as [I _]. apply (I_nodup _ I). Qed.
+
+Theorem reqids_unique_and_fresh : forall ops h1 h2 c1 c2,
+  get (run ops) h1 = Some c1 -> get (run ops) h2 = Some c2 -> c_tracked c1 = true -> c_tracked c2 = true ->
+  (c_rid c1 = c_rid c2 -> h1 = h2) /\ oneway_reqid < c_rid c1 < nextid (run ops).
+Proof.
+  intros ops h1 h2 c1 c2 G1 G2 T1 T2. destruct (inv_run ops) as [I _]. split.
+  - eapply (I_uniq _ I); eauto.
+  - pose proof (I_fresh _ I _ _ G1 T1). unfold oneway_reqid, first_reqid in *. lia.
+Qed.
+
+(* 3. after the connection is gone and the eventual queue has drained, nothing is pending and every
+      callRemote has fired exactly once *)
+Lemma drained_state s : Inv s -> disconnected s = true -> evq s = [] ->
+  table s = [] /\ forall h c, get s h = Some c -> c_twoway c = true -> List.length (c_fires c) = 1%nat.
+Proof.
+  intros [I D] Hd Q.
+  assert (Tn : table s = []).
+  { destruct (table s) as [|[r h] t] eqn:E; auto. destruct (D Hd r h) as [o Ho]; [rewrite E; left; reflexivity|].
+    rewrite Q in Ho. contradiction. }
+  split; auto. intros h c G Tw.
+  destruct (I_calls _ I _ _ G) as [_ [_ [F1 [_ F3]]]].
+  destruct (c_active c) eqn:A; auto.
+  pose proof (I_pend _ I _ _ G (F3 Tw eq_refl) A) as P. rewrite Tn in P. contradiction.
+Qed.
+
+Theorem drained_after_loss : forall ops,
+  disconnected (run ops) = true -> evq (run ops) = [] ->
+  table (run ops) = [] /\
+  forall h c, get (run ops) h = Some c -> c_twoway c = true -> List.length (c_fires c) = 1%nat.
+Proof. intros ops. apply drained_state. apply inv_run. Qed.
+
+Lemma turn_frame s : disconnected (step s Turn) = disconnected s /\ evq (step s Turn) = tl (evq s) /\
+  List.length (calls (step s Turn)) = List.length (calls s).
+Proof.
+  cbn [step]. destruct (evq s) as [|[h o] q] eqn:Q; [rewrite Q; auto|]. rewrite fail_step_closed.
+  destruct (frame_fail (set_evq s q) h o) as [E1 [E2 [_ [E4 _]]]]. rewrite E1, E2, E4. auto.
+Qed.
+
+Lemma turns_drain n : forall s, disconnected (run_from s (repeat Turn n)) = disconnected s /\
+  evq (run_from s (repeat Turn n)) = skipn n (evq s) /\
+  List.length (calls (run_from s (repeat Turn n))) = List.length (calls s).
+Proof.
+  induction n as [|n IH]; intros s; [cbn; auto|].
+  cbn [repeat run_from fold_left]. destruct (IH (step s Turn)) as [E1 [E2 E3]]. unfold run_from in *.
+  destruct (turn_frame s) as [F1 [F2 F3]]. rewrite E1, E2, E3, F1, F2, F3.
+  repeat split; auto. destruct (evq s); cbn; [destruct n|]; reflexivity.
+Qed.
+
+Lemma finish_disconnects s o : disconnected (step s (Finish o)) = true.
+Proof. cbn [step]. rewrite finish_step_closed. unfold finish_closed. destruct (disconnected s) eqn:E; auto. Qed.
+
+(* ... and that state is always reached: losing the connection and letting the queued eventual-sends run
+   (as many turns as there are queued entries) drains everything *)
+Theorem loss_then_drain : forall ops o,
+  let s1 := run (ops ++ [Finish o]) in
+  let s2 := run_from s1 (repeat Turn (List.length (evq s1))) in
+  disconnected s2 = true /\ evq s2 = [] /\ table s2 = [] /\
+  List.length (calls s2) = List.length (calls (run ops)) /\
+  forall h c, get s2 h = Some c -> c_twoway c = true -> List.length (c_fires c) = 1%nat.
+Proof.
+  intros ops o s1 s2.
+  assert (I1 : Inv s1) by apply inv_run.
+  assert (I2 : Inv s2) by (apply inv_run_from; exact I1).
+  destruct (turns_drain (List.length (evq s1)) s1) as [E1 [E2 E3]]. fold s2 in E1, E2, E3.
+  assert (Hd : disconnected s2 = true).
+  { rewrite E1. unfold s1, run. rewrite fold_left_app. cbn [fold_left]. apply finish_disconnects. }
+  assert (Q : evq s2 = []) by (rewrite E2; apply skipn_all).
+  destruct (drained_state s2 I2 Hd Q) as [Tn F].
+  repeat split; auto.
+  rewrite E3. unfold s1, run. rewrite fold_left_app. cbn [fold_left step]. rewrite finish_step_closed.
+  unfold finish_closed. destruct (disconnected (fold_left step ops init)); reflexivity.
+Qed.
+
+(* ---------- 4. the first outcome is final *)
+Definition extends (c c' : call) : Prop :=
+  c_rid c' = c_rid c /\ c_twoway c' = c_twoway c /\ c_tracked c' = c_tracked c /\
+  exists extra, c_fires c' = c_fires c ++ extra.
+
+Lemma extends_refl c : extends c c.
+Proof. repeat split; auto. exists []. rewrite app_nil_r. reflexivity. Qed.
+
+Lemma extends_trans a b c : extends a b -> extends b c -> extends a c.
+Proof.
+  intros [A1 [A2 [A3 [e1 A4]]]] [B1 [B2 [B3 [e2 B4]]]]. repeat split; try congruence.
+  exists (e1 ++ e2). rewrite B4, A4, app_assoc. reflexivity.
+Qed.
+
+Lemma fire_extends s t h o h' c : get s h' = Some c ->
+  exists c', get (fire (set_table s t) h o) h' = Some c' /\ extends c c'.
+Proof.
+  intros G. rewrite get_fire, get_set_table. destruct (Nat.eqb h h').
+  - rewrite G. cbn. eexists; split; [reflexivity|]. repeat split; auto. exists [o]. reflexivity.
+  - exists c. split; auto. apply extends_refl.
+Qed.
+
+Lemma complete_extends s h h' c : get s h' = Some c ->
+  exists c', get (complete_closed s h) h' = Some c' /\ extends c c'.
+Proof.
+  intros G. unfold complete_closed. destruct (get s h) as [d|]; [|eauto using extends_refl].
+  destruct (c_tracked d); [destruct (tbl_has (c_rid d) (table s))|]; try destruct (c_active d);
+    eauto using extends_refl, fire_extends.
+  replace s with (set_table s (table s)) at 1 by (destruct s; reflexivity). apply fire_extends. exact G.
+Qed.
+
+Lemma fail_extends s h o h' c : get s h' = Some c ->
+  exists c', get (fail_closed s h o) h' = Some c' /\ extends c c'.
+Proof.
+  intros G. unfold fail_closed. destruct (get s h) as [d|]; [|eauto using extends_refl].
+  destruct (c_active d); [|eauto using extends_refl].
+  destruct (c_tracked d); [destruct (tbl_has (c_rid d) (table s))|]; eauto using extends_refl, fire_extends.
+  replace s with (set_table s (table s)) at 1 by (destruct s; reflexivity). apply fire_extends. exact G.
+Qed.
+
+Lemma call_extends s k h c : get s h = Some c -> get (call_step s k) h = Some c.
+Proof.
+  intros G. unfold call_step. destruct k;
+    repeat match goal with |- context [if ?b then _ else _] => destruct b end;
+    try (apply get_push_old; exact G).
+Qed.
+
+Lemma step_extends s x h c : get s h = Some c -> exists c', get (step s x) h = Some c' /\ extends c c'.
+Proof.
+  intros G. destruct x; cbn [step].
+  - exists c. split; [apply call_extends; auto | apply extends_refl].
+  - destruct (tbl_find rid (table s)); [rewrite complete_step_closed; apply complete_extends; auto | eauto using extends_refl].
+  - destruct (tbl_find rid (table s)); [rewrite fail_step_closed; apply fail_extends; auto | eauto using extends_refl].
+  - destruct (tbl_find rid (table s)); [rewrite fail_step_closed; apply fail_extends; auto | eauto using extends_refl].
+  - rewrite complete_step_closed; apply complete_extends; auto.
+  - rewrite fail_step_closed; apply fail_extends; auto.
+  - rewrite finish_step_closed. unfold finish_closed. destruct (disconnected s); exists c; split; auto using extends_refl.
+  - destruct (evq s) as [|[h' o] q]; [eauto using extends_refl|]. rewrite fail_step_closed. apply fail_extends. exact G.
+Qed.
+
+Lemma run_from_extends ops : forall s h c, get s h = Some c ->
+  exists c', get (run_from s ops) h = Some c' /\ extends c c'.
+Proof.
+  induction ops as [|x ops IH]; intros s h c G; cbn; [eauto using extends_refl|].
+  destruct (step_extends s x h c G) as [c1 [G1 E1]].
+  destruct (IH _ _ _ G1) as [c2 [G2 E2]]. exists c2. split; auto. eapply extends_trans; eauto.
+Qed.
+
+(* whatever happens later (ops2 arbitrary), a Deferred that has fired with outcome o keeps exactly that one firing *)
+Theorem first_outcome_is_final : forall ops1 ops2 h c o,
+  get (run ops1) h = Some c -> c_fires c = [o] ->
+  exists c', get (run (ops1 ++ ops2)) h = Some c' /\ c_fires c' = [o] /\ c_rid c' = c_rid c /\ c_twoway c' = c_twoway c.
+Proof.
+  intros ops1 ops2 h c o G F.
+  destruct (run_from_extends ops2 _ _ _ G) as [c' [G' [E1 [E2 [E3 [extra E4]]]]]].
+  assert (R : run (ops1 ++ ops2) = run_from (run ops1) ops2) by (unfold run, run_from; apply fold_left_app).
+  rewrite <- R in G'. exists c'. repeat split; auto.
+  pose proof (at_most_once _ _ _ G') as L. rewrite E4, F in *. cbn in L.
+  destruct extra; [reflexivity | cbn in L; lia].
+Qed.
+
+(* handles are stable: a call never disappears and keeps its request id *)
+Theorem calls_persist : forall ops1 ops2 h c,
+  get (run ops1) h = Some c -> exists c', get (run (ops1 ++ ops2)) h = Some c' /\ extends c c'.
+Proof.
+  intros ops1 ops2 h c G.
+  assert (R : run (ops1 ++ ops2) = run_from (run ops1) ops2) by (unfold run, run_from; apply fold_left_app).
+  rewrite R. apply run_from_extends. exact G.
+Qed.
+
+(* ---------- 5. late events fire nothing; where the KeyError comes from *)
+Theorem late_events_fire_nothing : forall ops h c,
+  get (run ops) h = Some c -> c_active c = false ->
+  calls (step (run ops) (Complete h)) = calls (run ops) /\
+  table (step (run ops) (Complete h)) = table (run ops) /\
+  (forall o, step (run ops) (Fail h o) = run ops) /\
+  (c_tracked c = true ->
+     step (run ops) (Answer (c_rid c)) = run ops /\ step (run ops) (Error (c_rid c)) = run ops /\
+     step (run ops) (AnswerViolation (c_rid c)) = run ops).
+Proof.
+  intros ops h c G A. destruct (inv_run ops) as [I _]. set (s := run ops) in *.
+  assert (Hno : c_tracked c = true -> tbl_has (c_rid c) (table s) = false).
+  { intros T. destruct (tbl_has (c_rid c) (table s)) eqn:H; auto. exfalso.
+    apply tbl_has_true in H. apply in_map_iff in H as [[r k] [E H]]. cbn in E. subst r.
+    destruct (I_tbl _ I _ _ H) as [c' [G' [R' [T' A']]]].
+    assert (k = h) by (eapply (I_uniq _ I); eauto). subst. congruence. }
+  cbn [step]. rewrite complete_step_closed. unfold complete_closed. rewrite G, A.
+  split; [|split; [|split]].
+  - destruct (c_tracked c); [rewrite Hno by reflexivity|]; reflexivity.
+  - destruct (c_tracked c); [rewrite Hno by reflexivity|]; reflexivity.
+  - intros o. rewrite fail_step_closed. unfold fail_closed. rewrite G, A. reflexivity.
+  - intros T. specialize (Hno T).
+    assert (F : tbl_find (c_rid c) (table s) = None).
+    { destruct (tbl_find (c_rid c) (table s)) eqn:F; auto. apply tbl_find_some in F.
+      assert (X : tbl_has (c_rid c) (table s) = true) by (apply tbl_has_true; apply in_map_iff; eexists; split; [|exact F]; reflexivity).
+      congruence. }
+    rewrite F. auto.
+Qed.
+
+(* PendingRequest.fail never raises, Answer/Error from the wire never raise; the only exception is the KeyError of
+   removeRequest when complete() is called on a request object that was registered and is already retired -- and
+   that changes no Deferred and no table entry *)
+Theorem keyerror_only_from_late_complete : forall ops x,
+  raised (step (run ops) x) = raised (run ops) \/
+  (raised (step (run ops) x) = S (raised (run ops)) /\
+   exists h c, x = Complete h /\ get (run ops) h = Some c /\ c_tracked c = true /\ c_active c = false /\
+               calls (step (run ops) x) = calls (run ops) /\ table (step (run ops) x) = table (run ops)).
+Proof.
+  intros ops x. destruct (inv_run ops) as [I _]. set (s := run ops) in *.
+  assert (HF : forall s0 h o, Inv0 s0 -> raised (fail_closed s0 h o) = raised s0).
+  { intros s0 h o I0. unfold fail_closed. destruct (get s0 h) as [c|] eqn:G; auto.
+    destruct (c_active c) eqn:A; auto. destruct (c_tracked c) eqn:T; auto.
+    destruct (tbl_has (c_rid c) (table s0)) eqn:H; auto. exfalso.
+    pose proof (I_pend _ I0 _ _ G T A) as P.
+    assert (X : tbl_has (c_rid c) (table s0) = true) by (apply tbl_has_true; apply in_map_iff; eexists; split; [|exact P]; reflexivity).
+    congruence. }
+  assert (HC : forall h, raised (complete_closed s h) = raised s \/
+             (raised (complete_closed s h) = S (raised s) /\ exists c, get s h = Some c /\ c_tracked c = true /\ c_active c = false /\
+              calls (complete_closed s h) = calls s /\ table (complete_closed s h) = table s)).
+  { intros h. unfold complete_closed. destruct (get s h) as [c|] eqn:G; auto.
+    destruct (c_tracked c) eqn:T; [|destruct (c_active c); auto].
+    destruct (tbl_has (c_rid c) (table s)) eqn:H; [destruct (c_active c); auto|].
+    right. split; [reflexivity|]. exists c. repeat split; auto.
+    destruct (c_active c) eqn:A; auto. exfalso.
+    pose proof (I_pend _ I _ _ G T A) as P.
+    assert (X : tbl_has (c_rid c) (table s) = true) by (apply tbl_has_true; apply in_map_iff; eexists; split; [|exact P]; reflexivity).
+    congruence. }
+  destruct x; cbn [step].
+  - left. unfold call_step. destruct k; repeat match goal with |- context [if ?b then _ else _] => destruct b end; reflexivity.
+  - destruct (tbl_find rid (table s)) as [h|] eqn:F; auto. rewrite complete_step_closed.
+    destruct (HC h) as [E|[E [c [G [T [A _]]]]]]; auto. exfalso.
+    apply tbl_find_some in F. destruct (I_tbl _ I _ _ F) as [c' [G' [_ [_ A']]]]. congruence.
+  - destruct (tbl_find rid (table s)); auto. rewrite fail_step_closed. left. apply HF. auto.
+  - destruct (tbl_find rid (table s)); auto. rewrite fail_step_closed. left. apply HF. auto.
+  - rewrite complete_step_closed. destruct (HC h) as [E|[E [c R]]]; auto. right. split; auto. exists h, c. tauto.
+  - rewrite fail_step_closed. left. apply HF. auto.
+  - rewrite finish_step_closed. unfold finish_closed. destruct (disconnected s); auto.
+  - destruct (evq s) as [|[h o] q]; auto. rewrite fail_step_closed. left.
+    rewrite HF by (apply inv0_set_evq; auto). reflexivity.
+Qed.
+
+(* ---------- 6. a callRemote on a dead connection fails at once with DeadReferenceError and is never registered *)
+Theorem call_after_loss_is_dead : forall ops k,
+  disconnected (run ops) = true -> k <> KOneWay ->
+  let s' := step (run ops) (Call k) in
+  exists c, get s' (List.length (calls (run ops))) = Some c /\ c_fires c = [ODeadRef] /\ c_tracked c = false /\
+            table s' = table (run ops) /\ evq s' = evq (run ops).
+Proof.
+  intros ops k Hd Hk s'. unfold s'. cbn [step]. unfold call_step, newRequestID_refuses_when_disconnected.
+  rewrite Hd. cbn [andb]. destruct k; try congruence;
+    (eexists; split; [apply get_push_new | repeat split; reflexivity]).
+Qed.
+
+(* a wire answer for an id that is not pending (never issued, already answered, already failed) changes nothing *)
+Theorem unknown_reqid_ignored : forall ops rid,
+  ~ In rid (map fst (table (run ops))) ->
+  step (run ops) (Answer rid) = run ops /\ step (run ops) (Error rid) = run ops /\
+  step (run ops) (AnswerViolation rid) = run ops.
+Proof.
+  intros ops rid N. cbn [step].
+  destruct (tbl_find rid (table (run ops))) eqn:F; [|auto].
+  exfalso. apply N. apply tbl_find_some in F. apply in_map_iff. eexists; split; [|exact F]. reflexivity.
+Qed.
+
+(* ---------- non-vacuity *)
+Example ex_trace :
+  let ops := [Call KTwoWay; Call KTwoWay; Call KOneWay; Call KTwoWay; Call KLocalReject;
+              Answer 1; Fail 3 OSendFail; Finish ODeadRef; Complete 0; Call KTwoWay; Turn; Turn] in
+  snapshot (run ops) =
+  ([], [[1]; [4]; []; [5]; [6]; [4]], (true, [], 1)).
+Proof. vm_compute. reflexivity. Qed.
+
+Example ex_keyerror :
+  let ops := [Call KTwoWay; Error 1; Complete 0] in
+  raised (run ops) = 1%nat /\ map (fun c => List.length (c_fires c)) (calls (run ops)) = [1%nat].
+Proof. vm_compute. split; reflexivity. Qed.
+
+Example ex_pending_after_loss_before_turn :
+  let ops := [Call KTwoWay; Call KTwoWay; Answer 2; Finish ODeadRef] in
+  disconnected (run ops) = true /\ map fst (table (run ops)) = [1] /\ evq (run ops) = [(0%nat, ODeadRef)].
+Proof. vm_compute. repeat split; reflexivity. Qed.
+
+Example ex_first_outcome :
+  exists c, get (run [Call KTwoWay; Answer 1]) 0 = Some c /\ c_fires c = [OResult].
+Proof. eexists. split; vm_compute; reflexivity. Qed.
